@@ -405,12 +405,15 @@ pub fn deep_inputs() {
     if c.has_violations() {
         return;
     }
-    let exe = match std::env::current_exe() {
-        Ok(e) => e,
-        Err(_) => return,
-    };
+    // the child is a separate binary built WITHOUT optimisation (harness/deep, dev profile): an optimised build
+    // may turn a recursive tail call into a loop, the debug build of an application does not
+    let exe = std::path::PathBuf::from("/verif/target/debug/deep");
+    if !exe.exists() {
+        eprintln!("engine: /verif/target/debug/deep is missing (./check builds it for C03)");
+        std::process::exit(2);
+    }
     let t0 = std::time::Instant::now();
-    let handles: Vec<_> = (0..DEEP_CASES.len()).map(|i| { let exe = exe.clone(); std::thread::spawn(move || std::process::Command::new(exe).args(["c03-deep", &i.to_string()]).output()) }).collect();
+    let handles: Vec<_> = (0..DEEP_CASES.len()).map(|i| { let exe = exe.clone(); std::thread::spawn(move || std::process::Command::new(exe).arg(i.to_string()).output()) }).collect();
     for (i, h) in handles.into_iter().enumerate() {
         let (name, unit, n) = DEEP_CASES[i];
         c.evaluations.fetch_add(10, std::sync::atomic::Ordering::Relaxed);
@@ -432,7 +435,7 @@ pub fn deep_inputs() {
             }
         }
     }
-    c.part(json!({"part": "very many lines of one kind, each case in a child process on a 2 MiB stack", "cases": DEEP_CASES.iter().map(|(n, u, k)| format!("{k} x {u:?} ({n})")).collect::<Vec<_>>(), "wall_s": t0.elapsed().as_secs_f64()}));
+    c.part(json!({"part": "very many lines of one kind, each case in a child process (unoptimised build) on a 2 MiB stack", "cases": DEEP_CASES.iter().map(|(n, u, k)| format!("{k} x {u:?} ({n})")).collect::<Vec<_>>(), "wall_s": t0.elapsed().as_secs_f64()}));
 }
 
 pub fn size_boundary_sweep(name: &str, cfgs: Arc<Vec<Config>>, eval: impl Fn(&Config, &str) -> (Vec<Violation>, bool, u64) + Sync) {
